@@ -1,14 +1,24 @@
-"""Translator for C12 (constant folding): observed dispatch facts of the real folders -> lean/MypyVerif/Gen/FoldCfg.lean.
+"""Translator for C12 (constant folding): facts about the real folders -> lean/MypyVerif/Gen/FoldCfg.lean.
 
 Tabulated by running the real code (`VERIF_REPO` tree):
   * `unaryPlusOnBoolKeepsBool`  — `mypy.constant_fold.constant_fold_unary_op("+", True)` returns the `bool`
                                   operand itself (finding F25) rather than the `int` CPython computes.
-`Model/Fold.lean` is parametrised by these constants, `Props/C12Fold.lean` proves `fold_unary_exact_status`
-(the full unary statement holds ⇔ the constant is `false`) for whichever value is generated; the correspondence
-(harness/c12/fold.py) checks the rest of the model against the same code on every run.
+Read from the source (AST of mypy/constant_fold.py and mypyc/irbuild/constant_fold.py, constants cross-checked
+against the imported modules):
+  * `maxFoldedIntBits`, `maxFoldedStrLength` — the module constants MAX_FOLDED_INT_BITS / MAX_FOLDED_STR_LENGTH
+                                  (0 and every guard flag `false` on a tree without them);
+  * `guardInt{Mul,Shl,Pow}`, `guardStr{Add,MulR,MulL}`, `guardBytes{Add,MulR,MulL}` — which operator branch
+    tests the size of its *operands* before evaluating, and only if the test has exactly the expected form
+    (`left.bit_length() + right.bit_length() > MAX_FOLDED_INT_BITS: return None` for `*`, … see EXPECT below).
+    A guard of any other form, on any other operator, or a constant that differs between AST and import, is
+    recorded in NOTE (the harness reports a broken tie) — nothing is skipped silently.
+`Model/Fold.lean` is parametrised by these constants; `Props/C12Fold.lean` proves its theorems for whichever
+values are generated, and `guard_config_complete` (a declared bound guards every size-increasing operator).
+The correspondence (harness/c12/fold.py, incl. the guard-boundary stream) checks the model against the same code.
 """
 from __future__ import annotations
 
+import ast
 import importlib
 import os
 import sys
@@ -37,16 +47,158 @@ def facts() -> dict:
         keeps = True
         NOTE = (f"translate/c12fold: constant_fold_unary_op('+', bool) returns {r_true!r}/{r_false!r}, neither the "
                 "operand nor its int value; Gen/FoldCfg.lean keeps the value for the code as found")
-    return {"unaryPlusOnBoolKeepsBool": keeps}
+    from harness.vlib.core import REPO
+    g, notes = guard_facts(REPO)
+    if notes:
+        NOTE = (NOTE + " | " if NOTE else "") + "translate/c12fold: " + "; ".join(notes)
+    g["unaryPlusOnBoolKeepsBool"] = keeps
+    return g
+
+
+INT_CONST, STR_CONST = "MAX_FOLDED_INT_BITS", "MAX_FOLDED_STR_LENGTH"
+# operator -> the only operand-size expression the model knows for it
+EXPECT_INT = {"*": ("guardIntMul", "left.bit_length() + right.bit_length()"),
+              "<<": ("guardIntShl", "left.bit_length() + right"),
+              "**": ("guardIntPow", "left.bit_length() * right")}
+# branch test (unparsed) -> (flag, size expression)
+EXPECT_STR = {
+    "op == '+' and isinstance(left, str) and isinstance(right, str)": ("guardStrAdd", "len(left) + len(right)"),
+    "op == '*' and isinstance(left, str) and isinstance(right, int)": ("guardStrMulR", "len(left) * right"),
+    "op == '*' and isinstance(left, int) and isinstance(right, str)": ("guardStrMulL", "left * len(right)"),
+}
+EXPECT_BYTES = {
+    "op == '+' and isinstance(left, bytes) and isinstance(right, bytes)": ("guardBytesAdd", "len(left) + len(right)"),
+    "op == '*' and isinstance(left, bytes) and isinstance(right, int)": ("guardBytesMulR", "len(left) * right"),
+    "op == '*' and isinstance(left, int) and isinstance(right, bytes)": ("guardBytesMulL", "left * len(right)"),
+}
+FLAGS = [v[0] for d in (EXPECT_INT, EXPECT_STR, EXPECT_BYTES) for v in d.values()]
+
+
+def _const_value(node: ast.expr):
+    """value of a constant expression made of int literals and arithmetic (e.g. `1 << 16`)"""
+    for n in ast.walk(node):
+        if not isinstance(n, (ast.BinOp, ast.UnaryOp, ast.Constant, ast.operator, ast.unaryop)):
+            return None
+        if isinstance(n, ast.Constant) and not isinstance(n.value, int):
+            return None
+    return eval(compile(ast.Expression(node), "<const>", "eval"), {"__builtins__": {}})
+
+
+def _module_consts(tree: ast.Module) -> dict:
+    out = {}
+    for st in tree.body:
+        tgt = val = None
+        if isinstance(st, ast.AnnAssign) and isinstance(st.target, ast.Name):
+            tgt, val = st.target.id, st.value
+        elif isinstance(st, ast.Assign) and len(st.targets) == 1 and isinstance(st.targets[0], ast.Name):
+            tgt, val = st.targets[0].id, st.value
+        if tgt in (INT_CONST, STR_CONST) and val is not None:
+            out[tgt] = _const_value(val)
+    return out
+
+
+def _is_return_none(body: list) -> bool:
+    return len(body) == 1 and isinstance(body[0], ast.Return) and (
+        body[0].value is None or (isinstance(body[0].value, ast.Constant) and body[0].value.value is None))
+
+
+def _size_tests(body: list, const: str) -> list:
+    """every `if <expr> > CONST: return None` (negative form) / `if <expr> <= CONST: return …` (positive form)
+    inside a branch body: (unparsed size expression, well_formed)"""
+    found = []
+    for st in body:
+        for n in ast.walk(st):
+            if isinstance(n, ast.If) and isinstance(n.test, ast.Compare) and any(
+                    isinstance(c, ast.Name) and c.id in (INT_CONST, STR_CONST) for c in ast.walk(n.test)):
+                t = n.test
+                ok = (len(t.ops) == 1 and len(t.comparators) == 1 and isinstance(t.comparators[0], ast.Name)
+                      and t.comparators[0].id == const)
+                neg = ok and isinstance(t.ops[0], ast.Gt) and _is_return_none(n.body) and not n.orelse
+                pos = ok and isinstance(t.ops[0], ast.LtE) and len(n.body) == 1 and isinstance(n.body[0], ast.Return) \
+                    and not n.orelse
+                found.append((ast.unparse(t.left), bool(neg or pos)))
+    return found
+
+
+def _branches(fn: ast.FunctionDef):
+    """(unparsed test, body) of every `if` / `elif` directly in the function's if-chains"""
+    for n in ast.walk(fn):
+        if isinstance(n, ast.If):
+            yield ast.unparse(n.test), n.body
+
+
+def guard_facts(repo: str) -> tuple[dict, list]:
+    notes: list[str] = []
+    f = {k: False for k in FLAGS}
+    f["maxFoldedIntBits"] = f["maxFoldedStrLength"] = 0
+    src = open(os.path.join(repo, "mypy", "constant_fold.py")).read()
+    tree = ast.parse(src)
+    consts = _module_consts(tree)
+    cf = importlib.import_module("mypy.constant_fold")
+    for name, key in ((INT_CONST, "maxFoldedIntBits"), (STR_CONST, "maxFoldedStrLength")):
+        live = getattr(cf, name, None)
+        if name in consts or live is not None:
+            if consts.get(name) != live or not isinstance(live, int) or isinstance(live, bool) or live <= 0:
+                notes.append(f"{name}: source says {consts.get(name)!r}, the imported module {live!r}")
+            f[key] = live if isinstance(live, int) and not isinstance(live, bool) and live > 0 else 0
+    fns = {n.name: n for n in tree.body if isinstance(n, ast.FunctionDef)}
+
+    def scan(fn, expect, const, by_op: bool, where: str):
+        seen = set()
+        for test, body in _branches(fn):
+            key = None
+            if by_op:
+                for op in ("*", "<<", "**", "+", "-", "/", "//", "%", "&", "|", "^", ">>"):
+                    if test == f"op == {op!r}":
+                        key = op
+            else:
+                key = test if test.startswith("op == ") and "isinstance" in test else None
+            if key is None:
+                continue
+            tests = _size_tests(body, const)
+            # nested branches (e.g. `if right >= 0:`) are walked as part of the operator's body; skip the
+            # inner pseudo-branches themselves
+            if not tests:
+                continue
+            if key not in expect:
+                notes.append(f"{where}: size test on an operator branch the model does not guard: {key} {tests}")
+                continue
+            flag, want = expect[key]
+            if len(tests) != 1 or tests[0] != (want, True) or f[{INT_CONST: 'maxFoldedIntBits', STR_CONST: 'maxFoldedStrLength'}[const]] == 0:
+                notes.append(f"{where}: size test of branch {key} is {tests}, the model knows only `{want}` against {const}")
+                continue
+            f[flag] = True
+            seen.add(flag)
+
+    if "constant_fold_binary_int_op" in fns:
+        scan(fns["constant_fold_binary_int_op"], EXPECT_INT, INT_CONST, True, "constant_fold_binary_int_op")
+    for nm in ("_constant_fold_binary_op", "constant_fold_binary_op"):
+        if nm in fns:
+            scan(fns[nm], EXPECT_STR, STR_CONST, False, nm)
+    msrc = open(os.path.join(repo, "mypyc", "irbuild", "constant_fold.py")).read()
+    mtree = ast.parse(msrc)
+    mfns = {n.name: n for n in mtree.body if isinstance(n, ast.FunctionDef)}
+    if "constant_fold_binary_op_extended" in mfns:
+        scan(mfns["constant_fold_binary_op_extended"], EXPECT_BYTES, STR_CONST, False, "constant_fold_binary_op_extended")
+    mc = importlib.import_module("mypyc.irbuild.constant_fold")
+    if any(f[k] for k in ("guardBytesAdd", "guardBytesMulR", "guardBytesMulL")) and \
+            getattr(mc, STR_CONST, None) != f["maxFoldedStrLength"]:
+        notes.append(f"mypyc's {STR_CONST} is {getattr(mc, STR_CONST, None)!r}, mypy's {f['maxFoldedStrLength']!r}")
+    return f, notes
 
 
 def main() -> int:
     f = facts()
-    lines = ["-- GENERATED by translate/c12fold.py from mypy/constant_fold.py — do not edit",
+    lines = ["-- GENERATED by translate/c12fold.py from mypy/constant_fold.py and mypyc/irbuild/constant_fold.py — do not edit",
              "namespace Fold.Cfg", "",
              "/-- `constant_fold_unary_op(\"+\", <bool>)` returns the bool operand itself (F25) -/",
              f"def unaryPlusOnBoolKeepsBool : Bool := {str(f['unaryPlusOnBoolKeepsBool']).lower()}", "",
-             "end Fold.Cfg", ""]
+             "/-- MAX_FOLDED_INT_BITS / MAX_FOLDED_STR_LENGTH (0 = the tree declares no bound) -/",
+             f"def maxFoldedIntBits : Nat := {f['maxFoldedIntBits']}",
+             f"def maxFoldedStrLength : Nat := {f['maxFoldedStrLength']}", "",
+             "/-- the operator branch tests its operands' size against the bound before evaluating -/"]
+    lines += [f"def {k} : Bool := {str(f[k]).lower()}" for k in FLAGS]
+    lines += ["", "end Fold.Cfg", ""]
     text = "\n".join(lines)
     os.makedirs(os.path.dirname(OUT), exist_ok=True)
     if not os.path.exists(OUT) or open(OUT).read() != text:
